@@ -1,5 +1,6 @@
 PROP = {
     "id": "C05",
+    "tie2": ["Tie2Supervisor"],
     "harness": "c05",
     "driver": "c05",
     "n_quick": 3000,
